@@ -31,21 +31,33 @@ def commit_raw_checks_before_publish(repo=None):
         # validation may have been moved into a helper: the text of commit_raw alone decides nothing
         rep["reason"] = "no check(&self.options)? call in commit_raw (validation restructured): undecided by this text check"
         return rep
-    idx_ok = re.search(r"for\s+\w+\s+in\s+commit\.indexed\.values\(\)\s*\{[^}]*\.check\(", body_nc[:first_pub]) is not None
-    bt_ok = re.search(r"for\s+\w+\s+in\s+commit\.btree_indexed\.values\(\)\s*\{[^}]*\.check\(", body_nc[:first_pub]) is not None
+    # which kind of change set a check() call validates: the nearest mention of `commit.indexed` / `commit.btree_indexed` in
+    # front of it (the loop header or the iterator chain it belongs to)
+    def kinds_of(pos):
+        seg = body_nc[max(0, pos - 240):pos]
+        seg = seg[seg.rfind(";") + 1:]
+        return set(m.group(1) for m in re.finditer(r"commit\.(btree_indexed|indexed)\b", seg))
+    def kind_of(pos):
+        k = kinds_of(pos)
+        return k or None
     before = [c for c in checks if c < first_pub]
     after = [c for c in checks if c > first_pub]
-    if after and len(before) < 2:
+    kinds_before = set().union(*[kinds_of(c) for c in before]) if before else set()
+    kinds_after = set().union(*[kinds_of(c) for c in after]) if after else set()
+    missing = {"indexed", "btree_indexed"} - kinds_before
+    if not missing:
+        pass
+    elif missing & kinds_after:
         # whatever the form of the calls (loop, iterator adapter): some change set is validated only after another one
         # has been published
         ok = False
         why.append("a change set is check()ed only after another change set of the same transaction was published (copy_to_overlay)")
-    elif len(before) >= 2 and not (idx_ok and bt_ok):
-        rep["reason"] = "both kinds of change set are check()ed before the first copy_to_overlay, but not by the two loops this text check knows (validation restructured): undecided by this text check"
-        return rep
-    elif len(before) < 2:
+    elif before and all(kind_of(c) is not None for c in before):
         ok = False
-        why.append("not every change set of the transaction is check()ed before the first copy_to_overlay")
+        why.append("the %s change sets of the transaction are not check()ed before the first copy_to_overlay" % ("btree" if "btree_indexed" in missing else "hash"))
+    else:
+        rep["reason"] = "check() calls in commit_raw could not be attributed to the two kinds of change set (validation restructured): undecided by this text check"
+        return rep
     if idm and any(c > idm.start() for c in checks[:2]):
         ok = False
         why.append("the commit id is taken before validation finished")
